@@ -33,6 +33,12 @@ type IntervalAwareForceTicker struct {
 
 	wg   sync.WaitGroup
 	quit chan struct{}
+
+	// resetMtx serialises the calls that tear down and re-create the clock
+	// goroutine (Reset, ResetWithInterval, Stop). They replace ticker, quit
+	// and interval, which are otherwise not protected, and the ticker is
+	// reset from more than one goroutine.
+	resetMtx sync.Mutex
 }
 
 // A compile-time constraint to ensure IntervalAwareForceTicker satisfies the
@@ -129,6 +135,9 @@ func (t *IntervalAwareForceTicker) Pause() {
 //
 // NOTE: Part of the Ticker interface.
 func (t *IntervalAwareForceTicker) Stop() {
+	t.resetMtx.Lock()
+	defer t.resetMtx.Unlock()
+
 	t.Pause()
 	t.ticker.Stop()
 	close(t.quit)
@@ -138,6 +147,18 @@ func (t *IntervalAwareForceTicker) Stop() {
 // ResetWithInterval restarts the ticker with the given interval, causing the
 // next clock tick to occur in the given interval.
 func (t *IntervalAwareForceTicker) ResetWithInterval(newInterval time.Duration) {
+	t.resetMtx.Lock()
+	defer t.resetMtx.Unlock()
+
+	t.resetWithIntervalUnsafe(newInterval)
+}
+
+// resetWithIntervalUnsafe restarts the ticker with the given interval.
+//
+// NOTE: the caller must hold resetMtx.
+func (t *IntervalAwareForceTicker) resetWithIntervalUnsafe(
+	newInterval time.Duration) {
+
 	// Shutdown the internal clock ticker without changing isActive.
 	t.ticker.Stop()
 	close(t.quit)
@@ -159,7 +180,10 @@ func (t *IntervalAwareForceTicker) ResetWithInterval(newInterval time.Duration) 
 // Reset restarts the ticker interval, causing the next clock tick to occur in
 // the configured interval.
 func (t *IntervalAwareForceTicker) Reset() {
-	t.ResetWithInterval(t.interval)
+	t.resetMtx.Lock()
+	defer t.resetMtx.Unlock()
+
+	t.resetWithIntervalUnsafe(t.interval)
 }
 
 // ForceTick force feeds an event into the ticker channel and resets the
